@@ -34,6 +34,9 @@ structure St where
   gzip : Bool := false
   /-- oracle-only scenario (request sent before the server's SETTINGS are seen): no trace lines. -/
   early : Bool := false
+  /-- advertised MAX_HEADER_LIST_SIZE of the server / of the client. -/
+  slimit : Nat := 0
+  climit : Nat := 0
   reqs : List Req := []
   resps : List RespSpec := []
   c : DirSt := {}
@@ -189,6 +192,12 @@ def onStreamFrame (s : St) (isClient : Bool) (f : SFrame) (fields : Option (List
         let s' := put d'
         if st'.phase == .done then (s', onComplete s isClient f.sid st') else (s', "ok")
 
+/-- the response header list on stream `sid` exceeds what the client advertised. -/
+def respOver (s : St) (sid : Nat) : Bool :=
+  match s.s.streams.find? (fun e => e.1 == sid) with
+  | some e => decide (headerListSize e.2.headers > s.climit)
+  | none => false
+
 def onFrame (s : St) (isClient : Bool) (typ flags sid : Nat) (payload : Bytes)
     (fields : Option (List Field)) : St × String :=
   if typ == 0 then
@@ -216,7 +225,10 @@ def onFrame (s : St) (isClient : Bool) (typ flags sid : Nat) (payload : Bytes)
     match payload with
     | _ :: _ :: _ :: _ :: 0 :: 0 :: 0 :: 0 :: _ => (s, "ok")
     | _ => (s, "reject goaway-error")
-  else if typ == 3 then (s, "reject rst-stream")
+  else if typ == 3 then
+    -- the Transport resets a stream whose response header list exceeds what it advertised
+    if isClient && respOver s sid then (s, "ok")
+    else (s, "reject rst-stream")
   else (s, "reject unexpected-frame-type")
 
 def showHMap (h : HMap) (wildKeys : List Str) : String :=
@@ -242,7 +254,10 @@ def c14Step (s : St) (line : String) : St × String :=
   match tokens line with
   | "cfg" :: rest =>
     match (kvOf rest "gz") >>= parseBool, (kvOf rest "early") >>= parseBool with
-    | some gz, some early => ({ gzip := gz, early := early }, "ok")
+    | some gz, some early =>
+      let num (k : String) : Nat := ((kvOf rest k) >>= parseNat).getD 0
+      ({ gzip := gz, early := early, slimit := serverHeaderListLimit (num "smh"),
+         climit := clientHeaderListLimit (num "cmh") }, "ok")
     | _, _ => (s, "bad-op")
   | "req" :: rest =>
     match parseReq rest s.gzip, (kvOf rest "i") >>= parseNat with
@@ -269,6 +284,11 @@ def c14Step (s : St) (line : String) : St × String :=
   | ["cres", i] =>
     match parseNat i with
     | some i =>
+      -- a request above the server's limit is refused by the Transport (ErrRequestHeaderListSize);
+      -- a response above the client's limit fails RoundTrip (errResponseHeaderListSize)
+      if (match s.reqs[i]? with | some r => clientRefuses r s.slimit | none => false) then (s, "err roundtrip")
+      else if respOver s (2 * i + 1) then (s, "err roundtrip")
+      else
       match completed s.s (2 * i + 1), s.resps[i]? with
       | some st, some sp =>
         let hasKey (k : String) : Bool := sp.r.header.any (fun e => canonKey e.1 == str k)
